@@ -11,7 +11,7 @@ import sys
 VERIF = os.path.dirname(os.path.dirname(os.path.abspath(__file__)))
 SD = os.path.join(VERIF, "seeded")
 # outcome of the very first run of the checks against each seed, before any strengthening
-FIRST_MISSED = {"C13-3", "C13-4", "C17-4", "C19-3", "C15-4", "C16-3", "C16-4", "C14-3", "C14-4", "C03-4", "C03-5", "C02-5", "C02-6", "C10-5", "C02-3", "C08-4", "C10-4", "C04-3", "C09-3", "C11-4", "C12-4", "C02-2", "C03-1", "C05-1", "C06-1", "C06-2", "C08-1", "C08-2", "C10-1", "C11-2", "C15-1", "C18-1", "C19-1", "C19-2"}
+FIRST_MISSED = {"C16-5", "C16-6", "C15-5", "C15-6", "C10-6", "C10-7", "C04-6", "C05-6", "C14-6", "C02-7", "C02-8", "C17-5", "C19-5", "C06-6", "C13-3", "C13-4", "C17-4", "C19-3", "C15-4", "C16-3", "C16-4", "C14-3", "C14-4", "C03-4", "C03-5", "C02-5", "C02-6", "C10-5", "C02-3", "C08-4", "C10-4", "C04-3", "C09-3", "C11-4", "C12-4", "C02-2", "C03-1", "C05-1", "C06-1", "C06-2", "C08-1", "C08-2", "C10-1", "C11-2", "C15-1", "C18-1", "C19-1", "C19-2"}
 STRENGTHENED = {
     "C02-2": "new rule C02-e.upgrade-hands-over-write-buf (+ write-buf-effect)",
     "C03-1": "new rule C03-c.finished-kept-while-draining",
@@ -34,6 +34,22 @@ STRENGTHENED = {
     "C04-4": "caught by fail-closed anchors only (the Ready edge of poll_linger and its self-wake disappeared)",
     "C09-3": "new rule C09-f.configure-keeps-default",
     "C11-4": "C11-e.head-field strengthened from 'some write exists' to must-pass-through on every path to the hand-off",
+    "C16-5": "new rule C16-b.compressed-lookup-stays-inside",
+    "C16-6": "new rules C16-c.range-size-unaltered / range-size-is-file-length",
+    "C15-5": "new rule C15-g.field-released-only-when-ended",
+    "C15-6": "new rule C15-g.delimiter-remainder-exact",
+    "C10-6": "new rule C10-d.regex-set-keeps-every-pattern",
+    "C10-7": "new rules C10-d.reindex-covers-skip / reindex-covers-segments",
+    "C09-5": "was caught by C11 only (C11-d.url-update); the rule is now shared as C09-d.url-update",
+    "C04-5": "was caught by C07 only (C07-d.register-impl); the rule is now shared as C04-b.register-impl",
+    "C04-6": "new rule C04-b/C06.arming-always-polls",
+    "C05-6": "new rule C05-d.configured-bound-stored-as-given",
+    "C14-6": "new rules C14-f.suffix-uses-rotated-mask / prefix-uses-given-mask",
+    "C02-7": "new rule C02-g.sized-stream-declares-size",
+    "C02-8": "new rule C02-g.adapter-pending-has-waker",
+    "C17-5": "new rule C17-a.connection-read-delegates",
+    "C19-5": "C19-c extended to single-element indexing (BoundsCheck asserts) with a reasoned exception table",
+    "C06-6": "new rule C06.signal-handed-to-every-connection",
     "C13-3": "new rules C13-e.* (negotiate: chosen-from-accepted-item, zero-quality-filtered, identity-needs-acceptability)",
     "C13-4": "new rule C13-d.decoder-restored",
     "C17-4": "new rule C17-a.chunked-wins-over-length (and C01-b.decoder-from-decision now requires the not-chunked edge)",
